@@ -122,6 +122,7 @@ func (fr *Frame) loopFrame(li *loopInfo, before, after *State, ws map[string]boo
 			for k := range tmp {
 				if !isStore {
 					bad[k] = true
+					bad[strings.TrimPrefix(k, freshOnly)] = true
 					continue
 				}
 				switch a := st.Addr.(type) {
